@@ -522,6 +522,7 @@ class sptensor:
         array([6., 7.])
         """
         dims, _ = tt_dimscheck(self.ndims, dims=dims)
+        assert np.all(dims < self.ndims), "Values in dims must be in [0, self.ndims)."
         remdims = np.setdiff1d(np.arange(0, self.ndims), dims)
 
         # Booleans and narrow integers are added up as 64-bit integers
